@@ -82,10 +82,10 @@ fn algorithm::write_step_digits as write_step_digits_u64
         final(buffer)@.subrange(ret as int, index as int) =~= padr(value as nat, radix as nat, step as nat),
         forall|i: int| 0 <= i < final(buffer).len() && (i < ret || i >= index) ==> final(buffer)@[i] == old(buffer)@[i],
 >>>
-  after /let start = index;/ <<<
+  after /let start = [^;]*;/ <<<
         proof { lemma_padr_numeral(value as nat, radix as nat, step as nat); }
 >>>
-  before /let end = start\.saturating_sub\(step\);/ <<<
+  before /let end =/ <<<
         let ghost b1 = buffer@;
 >>>
   after /vx_fill\(zeros, b'0'\);/ <<<
@@ -122,7 +122,7 @@ fn algorithm::algorithm_u128
   before /if !\(\(table\.len\(\) >= \(radix/ <<<
     proof { assert(4 <= radix * radix <= 1296) by(nonlinear_arith) requires 2 <= radix <= 36; }
 >>>
-  after /let step = u64_step\(radix\);/ <<<
+  after /let step = [^;]*;/ <<<
         let ghost gr = radix as nat;
         let ghost dd = pwl(gr, step as nat);
         let ghost v0 = value as nat;
@@ -134,7 +134,7 @@ fn algorithm::algorithm_u128
             assert(v0 / dd >= 1) by { lemma_div_is_ordered(dd as int, v0 as int, dd as int); lemma_div_basics(dd as int); }
         }
 >>>
-  after #1 /let \(value, low\) = u128_divrem\(value, radix\);/ <<<
+  after #1 /let \(value, low\) = [^;]*;/ <<<
         let ghost v1 = value as nat;
 >>>
   before #2 /if value <= u64::MAX as u128 \{/ <<<
@@ -146,7 +146,7 @@ fn algorithm::algorithm_u128
                 assert(buffer@.subrange(index as int, count as int) =~= b1.subrange(index as int, count as int));
             }
 >>>
-  before /let \(value, mid\) = u128_divrem\(value, radix\);/ <<<
+  before /let \(value, mid\) =/ <<<
         proof {
             assert(v1 >= dd);
             lemma_numeral_split(v1, gr, step as nat);
@@ -163,7 +163,7 @@ fn algorithm::algorithm_u128
             }
         }
 >>>
-  after /let \(value, mid\) = u128_divrem\(value, radix\);/ <<<
+  after /let \(value, mid\) = [^;]*;/ <<<
         let ghost v2 = value as nat;
 >>>
   before /if index != 0 \{/ <<<
